@@ -349,6 +349,11 @@ def opJumpQ : P String := do
   let w ← pWidths; let x ← pTape; done
   pure (outF (Acceptance.jumpQ w x))
 
+/-- `propnorm sg sd` -/
+def opPropNorm : P String := do
+  let sg ← flt; let sd ← flt; done
+  pure (outF (Acceptance.propNormOf sg sd))
+
 /-- `acceptjump dir kind w xi x pDc Lxi Lx` (dir 0: DC→MT, 1: MT→DC) -/
 def opAcceptJump : P String := do
   let dir ← nat; let k ← nat; let w ← pWidths; let xi ← pTape; let x ← pTape; let p ← flt
@@ -669,6 +674,7 @@ def table : List (String × P String) := [
   ("acceptmh", opAcceptMH),
   ("acceptmulti", opAcceptMulti),
   ("jumpq", opJumpQ),
+  ("propnorm", opPropNorm),
   ("acceptjump", opAcceptJump),
   ("decide", opDecide),
   ("csv", opCsv),
